@@ -380,6 +380,16 @@ let c11 hfn zh (tree : string) (op : string) (g : string) (expand : string) (vtr
   let d0 = dump h a in
   let orig_root = hb (root_of hfn (habs h a)) in
   let g = nh g in
+  (* an index of more than 64 bits (a caller-defined Gindex): the library walks its path with
+     the same code; the model's functions on paths are used directly (TreePath.v) *)
+  let gbits = match g with N0 -> [] | Npos p ->
+    let rec bits p acc = match p with XH -> acc | XO q -> bits q (false :: acc) | XI q -> bits q (true :: acc) in
+    bits p [] in
+  let deep = List.length gbits > 63 in
+  let h_getter h a g = if deep then h_get_path h a gbits else h_getter h a g in
+  let h_setter zh h a g e v = if deep then h_set_path zh h a gbits e v else h_setter zh h a g e v in
+  let setter zh n g e v = if deep then set_path zh n gbits e v else setter zh n g e v in
+  let summarize zh hfn n g = if deep then summarize_path zh hfn n gbits else summarize zh hfn n g in
   match op with
   | "get" ->
     (match h_getter h a g with
